@@ -11,6 +11,7 @@ directly (RSA PKCS#1 v1.5 verify, ECDSA verify, AES-ECB, AES-CTR, X.509 DER pars
 import hashlib
 import hmac as _hmac
 import struct
+import warnings
 
 from cryptography import x509
 from cryptography.hazmat.primitives import hashes
@@ -19,6 +20,7 @@ from cryptography.hazmat.primitives.asymmetric import padding as apad
 from cryptography.hazmat.primitives.asymmetric import utils as autils
 from cryptography.hazmat.primitives.ciphers import Cipher, algorithms, modes
 
+warnings.filterwarnings("ignore", message=".*serial number.*")  # tampered certificates; a parser refusal is a rejection anyway
 BIG = 1 << 29  # logged integers are clamped (TLC integers are 32-bit; sums of three logged numbers must not overflow)
 KS_LEN = 1424
 ROM_WORDS = (0x20, 0x24, 0x28, 0x34)
